@@ -82,6 +82,9 @@ func specLinesText(lines []string, i int) string {
 // one when the parser's heading mode agrees with the splitter's - a fact about the shared parser that one goroutine cannot
 // see; the worker's line bookkeeping is therefore stated for blocks with at most one root row)
 //@ ghost var lnRootCount int
+// lnRejected: a line was rejected (format error, item nested too deep) or the scan of a block failed: the only reasons
+// for which a generator worker may report an error (blank lines, leading blank blocks included, are no reason)
+//@ ghost var lnRejected bool
 //@ func gtree.newRootGeneratorPipeline
 //@   ensures fresh: fresh(result) && result.nodeGenerator != nil && result.nodeGenerator.parser != nil && md.parserOK(result.nodeGenerator.parser)
 //@ func gtree.rootGeneratorPipeline.generate
@@ -92,10 +95,10 @@ func specLinesText(lines []string, i int) string {
 //@   carries errc: errChan
 //@   carries result0: rootChan
 //@   carries result1: errChan
-//@   modifies Node.children, Node.parent, list.List.view, list.Element.backOf, counter.n, bufio.Scanner.pos, bufio.Scanner.failed, markdown.Parser.isSharpRoot, markdown.Parser.spaces, markdown.Parser.sep, errSent, ctxDoneSeen, lnNodes, lnRootCount
+//@   modifies Node.children, Node.parent, list.List.view, list.Element.backOf, counter.n, bufio.Scanner.pos, bufio.Scanner.failed, markdown.Parser.isSharpRoot, markdown.Parser.spaces, markdown.Parser.sep, errSent, ctxDoneSeen, lnNodes, lnRootCount, lnRejected
 //@ closure gtree.rootGeneratorPipeline.generate#1
 //@   requires nn: rg != nil && rg.nodeGenerator != nil && rg.nodeGenerator.parser != nil && md.parserOK(rg.nodeGenerator.parser) && ctx != nil
-//@   modifies Node.children, Node.parent, list.List.view, list.Element.backOf, counter.n, bufio.Scanner.pos, bufio.Scanner.failed, markdown.Parser.isSharpRoot, markdown.Parser.spaces, markdown.Parser.sep, errSent, ctxDoneSeen, lnNodes, lnRootCount
+//@   modifies Node.children, Node.parent, list.List.view, list.Element.backOf, counter.n, bufio.Scanner.pos, bufio.Scanner.failed, markdown.Parser.isSharpRoot, markdown.Parser.spaces, markdown.Parser.sep, errSent, ctxDoneSeen, lnNodes, lnRootCount, lnRejected
 //@ loop gtree.rootGeneratorPipeline.generate#1#1
 //@   invariant parser: md.parserOK(rg.nodeGenerator.parser)
 //@ func gtree.rootGeneratorPipeline.worker
@@ -104,20 +107,26 @@ func specLinesText(lines []string, i int) string {
 //@   carries blocks: blockChan
 //@   carries rootc: rootChan
 //@   carries errc: errChan
-//@   modifies Node.children, Node.parent, list.List.view, list.Element.backOf, counter.n, bufio.Scanner.pos, bufio.Scanner.failed, markdown.Parser.isSharpRoot, markdown.Parser.spaces, markdown.Parser.sep, errSent, ctxDoneSeen, lnNodes, lnRootCount
+//@   modifies Node.children, Node.parent, list.List.view, list.Element.backOf, counter.n, bufio.Scanner.pos, bufio.Scanner.failed, markdown.Parser.isSharpRoot, markdown.Parser.spaces, markdown.Parser.sep, errSent, ctxDoneSeen, lnNodes, lnRootCount, lnRejected
 //@   after NewScanner: lnNodes := emptyseq(lnNodes)
 //@   after NewScanner: lnRootCount := 0
+//@   after generate: lnRejected := lnRejected || result1 != nil
+//@   after dfs: lnRejected := lnRejected || !result
+//@   after Err: lnRejected := lnRejected || result != nil
+//@   ensures genuine [C02,C12,C15]: errSent && !old(errSent) && !old(lnRejected) ==> lnRejected
 //@   after push: lnRootCount := lnRootCount + 1
 //@   after generate: lnNodes := (result0 == nil && result1 == nil) ? lnNodes ++ seqof(nil) : lnNodes
 //@   after push: lnNodes := lnNodes ++ seqof(arg0)
 //@   after dfs: lnNodes := result ? lnNodes ++ seqof(as(last(recv.nodes.view), Node)) : lnNodes
 //@ loop gtree.rootGeneratorPipeline.worker#1
 //@   invariant ok: md.parserOK(rg.nodeGenerator.parser)
+//@   invariant genuine [C02,C12,C15]: errSent == old(errSent) && lnRejected == old(lnRejected)
 //@ loop gtree.rootGeneratorPipeline.worker#2
 //@   invariant ok: md.parserOK(rg.nodeGenerator.parser) && sc != nil && 0 <= sc.pos && sc.pos <= len(sc.lines) && counter != nil
 //@   invariant root [C12]: root != nil ==> root.hierarchy == 1
 //@   invariant stack [C12]: stackOK(nodes)
 //@   invariant one [C02]: lnRootCount >= 0 && (lnRootCount == 0 ==> len(nodes.nodes.view) == 0) && (lnRootCount <= 1 ==> chain(nodes))
+//@   invariant genuine [C02,C12,C15]: errSent == old(errSent) && lnRejected == old(lnRejected)
 //@   invariant count [C02]: len(lnNodes) == sc.pos
 //@   invariant lines [C02]: lnRootCount <= 1 ==> (forall j int :: {lnNodes[j]} 0 <= j && j < sc.pos ==> (md.allSpace(sc.lines[j]) ==> lnNodes[j] == nil) && (!md.allSpace(sc.lines[j]) ==> lineRepr(sc.lines[j], lnNodes[j])))
 
@@ -255,21 +264,26 @@ func specLinesText(lines []string, i int) string {
 //@   requires validating [C07]: g != nil ==> g.enabledValidation
 //@   carries errc: errChan
 //@   carries result0: errChan
-//@   modifies fsOps, fsFailed, errSent, ctxDoneSeen
+//@   modifies fsOps, fsFailed, errSent, mkSeen, ctxDoneSeen
 //@ closure gtree.defaultMkdirerPipeline.mkdir#1
 //@   requires nn: dm != nil && dm.defaultMkdirerSimple != nil && dm.defaultMkdirerSimple.fileConsiderer != nil && ctx != nil
-//@   modifies fsOps, fsFailed, errSent, ctxDoneSeen
+//@   modifies fsOps, fsFailed, errSent, mkSeen, ctxDoneSeen
+// mkSeen: the roots for which this worker has started to create entries
+//@ ghost var mkSeen []*Node
 // a worker reports a failed file-system operation and a root that already exists on its stage's error channel (C06: every
 // error an operation reports is returned - per goroutine: sent) and creates nothing for a root that exists
 //@ func gtree.defaultMkdirerPipeline.worker
 //@   requires nn: dm != nil && dm.defaultMkdirerSimple != nil && dm.defaultMkdirerSimple.fileConsiderer != nil && ctx != nil && wg != nil
 //@   carries roots: grownChan($g)
 //@   carries errc: errChan
-//@   modifies fsOps, fsFailed, errSent, ctxDoneSeen
+//@   modifies fsOps, fsFailed, errSent, mkSeen, ctxDoneSeen
+//@   after makeDirectoriesAndFiles: mkSeen := mkSeen ++ seqof(arg0)
 //@   ensures reported [C06]: fsFailed && !old(fsFailed) ==> errSent
 //@   ensures quiet [C06]: fsOps != old(fsOps) && !errSent ==> fsFailed == old(fsFailed)
+//@   ensures fresh [C06]: forall k int :: {mkSeen[k]} len(old(mkSeen)) <= k && k < len(mkSeen) ==> mkSeen[k] != nil && !fsExistsAt(fpJoin2(dm.defaultMkdirerSimple.targetDir, specNodePath(mkSeen[k])))
 //@ loop gtree.defaultMkdirerPipeline.worker#1
 //@   invariant reported [C06]: fsFailed == old(fsFailed)
+//@   invariant fresh [C06]: len(old(mkSeen)) <= len(mkSeen) && (forall k int :: {mkSeen[k]} len(old(mkSeen)) <= k && k < len(mkSeen) ==> mkSeen[k] != nil && !fsExistsAt(fpJoin2(dm.defaultMkdirerSimple.targetDir, specNodePath(mkSeen[k]))))
 
 // ---- verify stage (pipeline_tree_verifier.go)
 //@ func gtree.defaultVerifierPipeline.verify
